@@ -182,7 +182,7 @@ func TestVerifC20Cluster(t *testing.T) {
 			if _, err := c[0].API.CreateIndex(ctx, index, pilosa.IndexOptions{}); err != nil {
 				t.Fatal(err)
 			}
-			if _, err := c[0].API.CreateField(ctx, index, "f", pilosa.OptFieldTypeSet(pilosa.CacheTypeNone, 0)); err != nil {
+			if _, err := vrcCreateField(c[0].API, index, "f", pilosa.OptFieldTypeSet(pilosa.CacheTypeNone, 0)); err != nil {
 				t.Fatal(err)
 			}
 			for k := 0; k < 6 && ok; k++ {
